@@ -45,7 +45,7 @@ func init() {
 
 type setupModel struct {
 	handle   *ssa.Function
-	handlers []*ssa.Function        // step handlers called from Handle
+	handlers []*ssa.Function // step handlers called from Handle
 	site     map[*ssa.Function]ssa.Instruction
 	guard    map[*ssa.Function]int64 // dispatch constant
 	guardOK  map[*ssa.Function]bool
